@@ -118,10 +118,48 @@ USER_COMP_EXPS = [[1, -1]]  # products and mass**-2 in solar/galactic units leav
 USER_SYSTEMS = ["mks", "cgs", "imperial", "galactic", "solar"]
 
 
-def apply_edits(rows, ndim):
+# ---- the `cross` instance: unit objects that are spelled the same and valued differently ----
+# The quantity lives in the caller-made registry above (USER_EDITS); the unit objects B / C of a case may be bound to a
+# second table, the TWIN: a registry of its own with the same code_* symbols at other values and the stock values of
+# ft/lb/R/pc/... (what a second dataset, or the default registry, looks like from the first).  The electromagnetic
+# counterparts carry the same calibration in both tables: the EM route goes by symbol name, so the laws between two
+# differently calibrated EM tables are not something the property states.
+# A twin row travels to TLC under the name `<symbol>@2`; the replay strips the suffix and binds the unit object
+#   bind = "twin"  : to a second UnitRegistry holding the twin values
+#   bind = "stale" : to the quantity's own registry, created while that registry still held the twin values (the
+#                    registry is re-calibrated afterwards: a Unit object keeps the value it was made with)
+TWIN_SUFFIX = "@2"
+TWIN_EDITS = [
+    {"op": "add", "sym": "code_length", "value": "4.0", "dim": "length", "prefixable": True},
+    {"op": "add", "sym": "code_mass", "value": "0.5", "dim": "mass", "prefixable": False},
+    {"op": "add", "sym": "code_time", "value": "2.0", "dim": "time", "prefixable": False},
+    {"op": "add", "sym": "code_temperature", "value": "0.25", "dim": "temperature", "prefixable": False},
+    {"op": "modify", "sym": "G", "value": "0.5"},
+    {"op": "modify", "sym": "statC", "value": "0.25"},
+]
+TWIN_SYMS = ["code_length", "code_mass", "code_time", "code_temperature", "m", "ft", "kg", "lb", "s", "K", "degC", "R", "T", "G", "C", "statC"]
+CROSS_POOL = [
+    "code_length", "kcode_length", "m", "ft",
+    "code_mass", "kg", "lb",
+    "code_time", "s",
+    "code_temperature", "K", "degC", "R", "degF",
+    "T", "mT", "G", "kG", "C", "statC", "mstatC",
+]
+CROSS_TWINS = [
+    "code_length", "kcode_length", "m", "ft",
+    "code_mass", "lb",
+    "code_time", "s",
+    "code_temperature", "degC", "R",
+    "T", "G", "kG", "statC", "mstatC", "C",
+]
+CROSS_COMP_ATOMS = ["code_length", "m", "ft", "code_time", "s"]
+CROSS_COMP_EXPS = [[1, -1]]
+
+
+def apply_edits(rows, ndim, edits=None):
     rows = [dict(r) for r in rows]
     by = {r["sym"]: r for r in rows}
-    for e in USER_EDITS:
+    for e in USER_EDITS if edits is None else edits:
         v = float(e["value"])
         if e["op"] == "add":
             dim = [12 if j == USER_DIMS[e["dim"]] else 0 for j in range(ndim)]
@@ -136,6 +174,10 @@ def apply_edits(rows, ndim):
 def build(ex, mode):
     """ex = ck.extract(); mode 'exact' | 'table' | 'user' -> (data for TLC, info for the replay workers)."""
     rows = [r for r in ex["lut"] if r["dim"] is not None]
+    if mode == "cross":
+        twin = {r["sym"]: r for r in apply_edits(rows, len(ex["base_dimensions"]), TWIN_EDITS)}
+        rows = apply_edits(rows, len(ex["base_dimensions"]))
+        rows += [dict(twin[s], sym=s + TWIN_SUFFIX) for s in TWIN_SYMS if s in twin]
     if mode == "user":
         rows = apply_edits(rows, len(ex["base_dimensions"]))
     # group by dimension vector; decide absolute vs relative scales per class
@@ -206,7 +248,7 @@ def build(ex, mode):
         if b != "1":
             dimstr.setdefault(b, [12 if j == i else 0 for j in range(len(ex["base_dimensions"]))])
     systems = []
-    for sname in {"exact": EXACT_SYSTEMS, "user": USER_SYSTEMS}.get(mode, TABLE_SYSTEMS):
+    for sname in {"exact": EXACT_SYSTEMS, "user": USER_SYSTEMS, "cross": USER_SYSTEMS}.get(mode, TABLE_SYSTEMS):
         s = ex["unit_systems"].get(sname)
         if not s or "units_map" not in s:
             continue
@@ -221,21 +263,30 @@ def build(ex, mode):
     elif mode == "user":
         pool = [n for n in USER_POOL]
         comp_atoms, comp_exps = USER_COMP_ATOMS, USER_COMP_EXPS
+    elif mode == "cross":
+        pool = [n for n in CROSS_POOL]
+        comp_atoms, comp_exps = CROSS_COMP_ATOMS, CROSS_COMP_EXPS
     else:
-        pool = [r["name"] for r in lut]
+        pool = [r["name"] for r in lut if not r["name"].endswith(TWIN_SUFFIX)]
         comp_atoms, comp_exps = TABLE_COMP_ATOMS, TABLE_COMP_EXPS
     comp_atoms = [a for a in comp_atoms if a in names or a[1:] in names]
     pool = [{"a": n, "ea": 1, "b": "", "eb": 0, "coef": 1} for n in pool]
     # equal-scale spellings: a conversion between them has factor exactly 1 and no offset (like K <-> delta_degC)
     pool += [s for s in ({"exact": EXACT_ALIASES, "user": []}.get(mode, TABLE_ALIASES)) if s["a"] in names and (s["b"] == "" or s["b"] in names)]
     pool += [{"a": a, "ea": e[0], "b": b, "eb": e[1], "coef": 1} for a in comp_atoms for b in comp_atoms for e in comp_exps if a != b]
+    # reg: the table a unit object of the pool is bound to (1 = the quantity's registry, 2 = the twin)
+    pool = [dict(s, reg=1) for s in pool]
+    if mode == "cross":
+        T = TWIN_SUFFIX
+        pool += [{"a": n + T, "ea": 1, "b": "", "eb": 0, "coef": 1, "reg": 2} for n in CROSS_TWINS]
+        pool += [{"a": a + T, "ea": e[0], "b": b + T, "eb": e[1], "coef": 1, "reg": 2} for a in comp_atoms for b in comp_atoms for e in comp_exps if a != b and a + T in names and b + T in names]
     data = {
         "lut": lut,
         "prefixes": prefixes,
         "em": em,
         "pool": pool,
-        "exact": mode in ("exact", "user"),
+        "exact": mode in ("exact", "user", "cross"),
         "systems": systems,
     }
-    info = {"pool": pool, "gen": {k: repr(v) for k, v in GEN.items()}, "edits": USER_EDITS if mode == "user" else None}
+    info = {"pool": pool, "gen": {k: repr(v) for k, v in GEN.items()}, "edits": USER_EDITS if mode in ("user", "cross") else None, "twin_edits": TWIN_EDITS if mode == "cross" else None}
     return data, info
